@@ -1,5 +1,6 @@
 import Drv.Basic
 import Drv.Parse
+import Drv.RefAlgo
 import Drv.Exec
 import Drv.Gen
 import Drv.Judge
